@@ -394,6 +394,13 @@ func (e *Encoder) encodeSlice(data reflect.Value) error {
 // Encode a Struct {{{
 
 func (e *Encoder) encodeStruct(data reflect.Value) error {
+	for data.Kind() == reflect.Ptr || data.Kind() == reflect.Interface {
+		/* the elements of a []*T, which the Decoder fills as well */
+		if data.IsNil() {
+			return fmt.Errorf("Can't Encode a nil pointer")
+		}
+		data = data.Elem()
+	}
 	if e.alreadyWritten {
 		_, err := e.writer.Write([]byte("\n"))
 		if err != nil {
